@@ -38,6 +38,8 @@ Lemma text_prefix_shape : text_prefix =
    SAssign (TName "widths") widths_expr].
 Proof. reflexivity. Qed.
 
+Lemma attr_datatype a b : PT "attr:datatype" [PTuple [PV (VInt 63); a; b]] = Ok b. Proof. reflexivity. Qed.
+Lemma attr_name a b : PT "attr:name" [PTuple [PV (VInt 63); a; b]] = Ok a. Proof. reflexivity. Qed.
 Lemma idx0 (a b : pv) : index_at [a; b] 0 = Ok a. Proof. reflexivity. Qed.
 Lemma idx1 (a b : pv) : index_at [a; b] 1 = Ok b. Proof. reflexivity. Qed.
 Lemma max4_int a b c : PT "builtins.max" [PInt 1; PInt a; PInt b; PInt c] = Ok (PInt (Z.max (Z.max (Z.max 1 a) b) c)).
@@ -79,7 +81,89 @@ Proof.
     destruct (o_narrow o) eqn:En;
       repeat (progress (cbn -[map_res]; step_env;
                         rewrite ?Hn, ?Hv, ?idx0, ?idx1, ?(prepare_prim quant numfmt dc o), ?max4_int, ?max4_true));
-      rewrite IH; cbn [bind]; unfold width_of at 1; rewrite col_width_Z, En; reflexivity. }
+      rewrite IH; cbn [bind]; unfold width_of; rewrite (col_width_Z n (snd (rstate_of quant o tv))); rewrite ?En; reflexivity. }
   rewrite E. reflexivity.
+Qed.
+
+Lemma align_prim tv : PT "attr:align" [rnd tv] = Ok (PInt (match align_of (fst tv) with ARight => 1 | ALeft => 0 end)).
+Proof.
+  unfold rend, robj, prims_top. cbn -[dec_rdtype enc_rdtype]. rewrite dec_enc_rdtype. destruct (fst tv); reflexivity.
+Qed.
+
+Definition text_locals (desc : list (str * dtype)) (rows : list (list cellv)) (f0 : str) : env :=
+  [("columns", PList (map enc_rcolumn desc)); ("rows", PList (map enc_rrow rows)); ("dcontext", dc); ("file", enc_s f0);
+   ("expand", PBool (o_expand o)); ("boxed", PBool (o_boxed o)); ("spaced", PBool (o_spaced o));
+   ("listsep", enc_s (o_listsep o)); ("nullvalue", enc_s (o_null o)); ("narrow", PBool (o_narrow o));
+   ("unicode", PBool (o_unicode o))].
+
+Theorem text_widths_src : forall (desc : list (str * dtype)) (rows : list (list cellv)) (f0 : str),
+  exists s',
+  PyMini.exec_block call_ref PT {| locals := text_locals desc rows f0; fields := [] |} text_prefix = Ok (Next s') /\
+  lookup "widths" (locals s') =
+    Some (PList (map (fun w => PInt (Z.of_nat w)) (table_widths quant numfmt o desc rows))) /\
+  lookup "renderers" (locals s') =
+    Some (PList (map rnd (fold_left upd rows (map (fun d => (snd d, [])) desc)))) /\
+  lookup "alignment" (locals s') =
+    Some (PList (map (fun d => PInt (match align_of (snd d) with ARight => 1 | ALeft => 0 end)) desc)) /\
+  lookup "headers" (locals s') = Some (PList (map enc_s (map fst desc))) /\
+  lookup "ctx" (locals s') = Some ctx /\ lookup "file" (locals s') = Some (enc_s f0).
+Proof.
+  intros desc rows f0. rewrite text_prefix_shape. unfold text_stmt, text_prefix, text_locals. cbn [nth].
+  set (tvs0 := map (fun d : str * dtype => (snd d, @nil cellv)) desc).
+  rewrite exec_block_cons. erewrite exec_assign; [|reflexivity].
+  cbn [bind write locals fields update String.eqb Ascii.eqb Bool.eqb].
+  rewrite exec_block_cons.
+  erewrite exec_assign.
+  2:{ erewrite eval_listcomp; [|reflexivity].
+      rewrite (map_res_ok _ (fun v => match v with PTuple [_; _; t] => PTuple [PInt 60; t; ctx; PList []] | _ => PNone end));
+        [reflexivity|].
+      intros v Hv. apply in_map_iff in Hv. destruct Hv as [[n t] [<- _]].
+      repeat (progress (cbn -[enc_rdtype]; unfold enc_rcolumn; rewrite ?attr_datatype, ?Hget)). reflexivity. }
+  match goal with |- context [map ?g (map enc_rcolumn desc)] =>
+    replace (map g (map enc_rcolumn desc)) with (map rnd tvs0)
+      by (unfold tvs0; rewrite !map_map; apply map_ext; intros [n t]; reflexivity) end.
+  cbn [bind write locals fields update String.eqb Ascii.eqb Bool.eqb].
+  rewrite exec_block_cons.
+  erewrite exec_assign.
+  2:{ erewrite eval_listcomp; [|reflexivity].
+      rewrite (map_res_ok _ (fun v => match v with PTuple [_; n; _] => n | _ => PNone end)); [reflexivity|].
+      intros v Hv. apply in_map_iff in Hv. destruct Hv as [[n t] [<- _]].
+      repeat (progress (cbn; unfold enc_rcolumn; rewrite ?attr_name)). reflexivity. }
+  match goal with |- context [map ?g (map enc_rcolumn desc)] =>
+    replace (map g (map enc_rcolumn desc)) with (map enc_s (map fst desc))
+      by (rewrite !map_map; apply map_ext; intros [n t]; reflexivity) end.
+  cbn [bind write locals fields update String.eqb Ascii.eqb Bool.eqb].
+  (* alignment = [renderer.align for renderer in renderers] *)
+  rewrite exec_block_cons.
+  erewrite exec_assign.
+  2:{ erewrite eval_listcomp; [|reflexivity].
+      rewrite (map_res_ok _ (fun v => res_val (PT "attr:align" [v]))); [reflexivity|].
+      intros v Hv. apply in_map_iff in Hv. destruct Hv as [tv [<- _]].
+      erewrite eval_attr; [|cbn [PyMini.eval read write locals]; step_env; reflexivity|unfold rend, robj; discriminate].
+      cbn [append]. rewrite align_prim. reflexivity. }
+  cbn [bind write locals fields update String.eqb Ascii.eqb Bool.eqb].
+  (* priming loop *)
+  rewrite exec_block_cons.
+  erewrite (exec_for call_ref PT "row" (XName "rows") csv_loop _ _ (map enc_rrow rows)); [|reflexivity].
+  match goal with |- context [for_loop _ _ _ _ {| locals := ?L; fields := _ |} _] =>
+    destruct (prime_rows call_ref quant numfmt dc o rows tvs0 L eq_refl) as [loc1 [E1 [Hr1 F1]]] end.
+  rewrite E1. cbn [bind].
+  pose proof (F1 "file" eq_refl eq_refl eq_refl eq_refl eq_refl) as Hfile.
+  pose proof (F1 "headers" eq_refl eq_refl eq_refl eq_refl eq_refl) as Hhead.
+  pose proof (F1 "ctx" eq_refl eq_refl eq_refl eq_refl eq_refl) as Hctx.
+  pose proof (F1 "alignment" eq_refl eq_refl eq_refl eq_refl eq_refl) as Hal.
+  pose proof (F1 "narrow" eq_refl eq_refl eq_refl eq_refl eq_refl) as Hnar.
+  pose proof (F1 "nullvalue" eq_refl eq_refl eq_refl eq_refl eq_refl) as Hnul.
+  cbn in Hfile, Hhead, Hctx, Hal, Hnar, Hnul. clear F1 E1.
+  (* widths *)
+  rewrite exec_block_cons.
+  erewrite exec_assign; [|apply (widths_eval (map fst desc) _ loc1 Hhead Hr1 Hnar Hnul)].
+  cbn [bind write locals fields]. rewrite exec_block_nil.
+  eexists. split; [reflexivity|]. cbn [locals].
+  split.
+  { rewrite lookup_update_eq. unfold table_widths. rewrite <- col_states_fold. fold tvs0.
+    rewrite map2_map_r, map2_map_l. reflexivity. }
+  step_env. rewrite Hr1, Hal, Hhead, Hctx, Hfile.
+  repeat split. f_equal. f_equal. unfold tvs0. rewrite !map_map. apply map_ext. intros [n t]. rewrite align_prim. reflexivity.
 Qed.
 End Text.
